@@ -5,6 +5,7 @@ import (
 	"context"
 	"encoding/json"
 	"fmt"
+	"unicode/utf8"
 
 	"github.com/risor-io/risor/errz"
 	"github.com/risor-io/risor/op"
@@ -366,10 +367,11 @@ func (b *ByteSlice) ContainsRune(obj Object) Object {
 	if err != nil {
 		return err
 	}
-	if len(s) != 1 {
+	if !utf8.ValidString(s) || utf8.RuneCountInString(s) != 1 {
 		return Errorf("byte_slice.contains_rune: argument must be a single character")
 	}
-	return NewBool(bytes.ContainsRune(b.value, rune(s[0])))
+	r, _ := utf8.DecodeRuneInString(s)
+	return NewBool(bytes.ContainsRune(b.value, r))
 }
 
 func (b *ByteSlice) Count(obj Object) Object {
@@ -428,10 +430,11 @@ func (b *ByteSlice) IndexRune(obj Object) Object {
 	if err != nil {
 		return err
 	}
-	if len(s) != 1 {
+	if !utf8.ValidString(s) || utf8.RuneCountInString(s) != 1 {
 		return Errorf("byte_slice.index_rune: argument must be a single character")
 	}
-	return NewInt(int64(bytes.IndexRune(b.value, rune(s[0]))))
+	r, _ := utf8.DecodeRuneInString(s)
+	return NewInt(int64(bytes.IndexRune(b.value, r)))
 }
 
 func (b *ByteSlice) Repeat(obj Object) (result Object) {
